@@ -103,3 +103,60 @@ def byte_kernels(ctx, fx, rule="R-LANES"):
             ctx.violation(rule, fid, bad[0], bad[2], fn.file, bad[1])
     ctx.instance(rule + ".functions", n)
     return n
+
+
+# ------------------------------------------------------------------ R-PADMASK
+def padded_mask(ctx, fx, files=None, rule="R-PADMASK", only=None):
+    """a kernel that copies `len` valid elements into a zero-filled scratch array and compares the whole register must
+    not take the first set bit of the raw movemask: the padding lanes compare equal to key 0. In a function with a
+    `usize` length parameter and a zero-repeat scratch array, a `trailing_zeros`/`leading_zeros` of a value derived from
+    `_mm*_movemask_*` needs, on the way, a BitAnd with a value derived from the length - or the movemask sits under a
+    dominating `len >= / < CONST` branch (the block in which every lane is known to be filled)."""
+    import re as _re
+    from vlib.mir import Fn, op_local, op_const
+    n = 0
+    for f in (files or fx.files()):
+        for fid in fx.fn_ids(f):
+            if "::tests::" in fid or (only and not only(fid)):
+                continue
+            for k in range(fx.count(fid)):
+                fn = Fn(fx.raw(fid, k))
+                mm = [(b, c) for b, c in fn.calls() if _re.search(r"_mm\d*_movemask_(epi8|ps|pd)$", c["f"])]
+                if not mm:
+                    continue
+                lens = [i for i in range(1, fn.nargs + 1) if fn.ty(i) == "usize"]
+                scratch = any(st[0] == "a" and st[2][0] == "rep" for loc, st in fn.iter_locs())
+                if not lens or not scratch:
+                    continue
+                lenfw = fn.forward_locals(lens) | set(lens)
+                len_sw = []
+                for loc, st in fn.iter_locs():
+                    if st[0] == "a" and st[2][0] == "bin" and st[2][1] in ("Lt", "Le", "Gt", "Ge") and len(st[1]) == 1:
+                        x, y = st[2][2], st[2][3]
+                        if (op_local(x) in lenfw and op_const(y) is not None) or (op_local(y) in lenfw and op_const(x) is not None):
+                            for sb in fn.blocks():
+                                t = fn.term(sb)
+                                if t[0] == "sw" and op_local(t[1]) == st[1][0]:
+                                    len_sw.append(sb)
+                for b, c in mm:
+                    fw = fn.forward_locals([c["d"][0]]) | {c["d"][0]}
+                    tz = [(b2, c2) for b2, c2 in fn.calls() if c2["f"].rsplit("::", 1)[-1] in ("trailing_zeros", "leading_zeros")
+                          and c2["a"] and op_local(c2["a"][0]) in fw]
+                    if not tz:
+                        continue
+                    n += 1
+                    ctx.analysed_fns.add(fid)
+                    masked = any(st[0] == "a" and st[2][0] == "bin" and st[2][1] == "BitAnd" and
+                                 ((op_local(st[2][2]) in fw and op_local(st[2][3]) in lenfw) or
+                                  (op_local(st[2][3]) in fw and op_local(st[2][2]) in lenfw)) for loc, st in fn.iter_locs())
+                    full = any(fn.dominates(sb, b) and sb != b for sb in len_sw)
+                    ok = masked or full
+                    ctx.obligation(rule, fid, "movemask@%s restricted to the filled lanes" % c["ln"], ok,
+                                   sample={"fn": fid, "line": c["ln"], "masked_by_len": masked, "under_len_branch": full})
+                    if not ok:
+                        ctx.violation(rule, fid, "first set bit of an unmasked movemask over a zero-padded array",
+                                      "%s compares a zero-padded scratch array of `len` valid elements in one register and takes "
+                                      "trailing_zeros of the raw movemask (line %d): for key 0 a padding lane is the first match, so an index "
+                                      ">= len is returned" % (fid.rsplit("::", 1)[-1], c["ln"]), fn.file, c["ln"])
+    ctx.instance(rule + ".sites", n)
+    return n
